@@ -107,6 +107,18 @@ func Materialise(root string, t TreeSpec) error {
 			}
 		}
 	}
+	// further names for files that exist by now
+	for _, n := range nodes {
+		if n.Kind == "hardlink" {
+			p := filepath.Join(root, filepath.FromSlash(n.Path))
+			if err := os.MkdirAll(filepath.Dir(p), 0755); err != nil {
+				return err
+			}
+			if err := os.Link(filepath.Join(root, filepath.FromSlash(n.Target)), p); err != nil {
+				return err
+			}
+		}
+	}
 	// metadata, deepest first
 	sort.SliceStable(nodes, func(i, j int) bool { return strings.Count(nodes[i].Path, "/") > strings.Count(nodes[j].Path, "/") })
 	for _, n := range nodes {
